@@ -393,6 +393,21 @@ func init() {
 					bsh := sh
 					bsh.Tags = tagShape{Set: true, List: append(append([][2]int{}, tsh.List...), [2]int{len("bucketid"), 4}, [2]int{len("bucket"), len("1.000000-infinity")})}
 					shapes = append(shapes, bsh)
+					// every bucket of a histogram is charged for its own range tag (they differ in length)
+					if nt == 1 {
+						h3 := rep.AllocateHistogram(name+"w", tags, tally.ValueBuckets{-123456789.5, 1})
+						for _, rg := range []struct {
+							lo, hi float64
+							s      string
+						}{{-math.MaxFloat64, -123456789.5, "-infinity--123456789.500000"}, {-123456789.5, 1, "-123456789.500000-1.000000"}, {1, math.MaxFloat64, "1.000000-infinity"}} {
+							h3.ValueBucket(rg.lo, rg.hi).ReportSamples(1)
+							b3 := sh
+							b3.Name = nameLen + 1
+							b3.Tags = tagShape{Set: true, List: append(append([][2]int{}, tsh.List...), [2]int{len("bucketid"), 4}, [2]int{len("bucket"), len(rg.s)})}
+							shapes = append(shapes, b3)
+							kindsOf = append(kindsOf, "counter")
+						}
+					}
 				}
 			}
 			// concurrent allocation: "size measurement under a lock through one reused protocol" - handles allocated by
